@@ -8,6 +8,9 @@ CONSTANTS
   ProbeBlocks <- MCProbeBlocks
   Variant = "asbuilt"
   MaxCalls = 1
+  MaxEdits = 0
+  EditCoefs <- MCEditCoefs
+  EditNames <- MCEditNames
 INVARIANT TypeOK
 INVARIANT RouteRefines
 INVARIANT StateRefines
